@@ -106,6 +106,9 @@ func (h *killedHandler) cleanupIfNotRestarting() {
 		ActorRef: h.ctx.ref,
 		Type:     reflect.TypeOf(h.ctx.actor),
 	})
+
+	// 邮箱可能因故障监督而处于暂停状态，终止后需恢复以排空滞留的普通消息使其进入死信，否则这些消息将被静默丢失
+	h.ctx.mailbox.Resume()
 }
 
 // cleanupScheduler 清理调度器
